@@ -20,7 +20,8 @@ WIDTH_CTX = ["stmt", "stmt_nested", "linecomment", "linecomment_tab", "eol_comme
              "block_mid_in_struct", "block_mid_before_endif", "linecomment_between_signature_and_brace"]
 LINES_CTX = ["plain", "with_decls", "with_blocks", "second_function", "nested_blocks", "wrapped_call2", "wrapped_call3",
              "wrapped_condition", "wrapped_assign_in_block", "else_chain", "nested_no_braces", "nested_no_braces_3",
-             "no_braces_around_block", "no_brace_nest_at_end", "nest_then_else", "nested_in_block"]
+             "no_braces_around_block", "no_brace_nest_at_end", "nest_then_else", "nested_in_block",
+             "brace_at_eof_no_newline", "brace_then_line_comment", "brace_then_block_comment", "brace_then_blank", "brace_then_function"]
 COUNT_CTX = {"funcs": ["plain", "with_protos", "with_globals", "static_functions", "alternating_static"],
              "params": ["definition", "prototype", "static_definition", "second_function", "header_prototype", "pointer_params",
                         "funcptr_param", "const_first", "multiline_definition", "array_params", "static_prototype"],
@@ -348,7 +349,10 @@ def build(limit, ctx, n, ex):
             body += 1
         b.add(tail)
         brace_line = b.line + 1
-        b.add("\treturn (0);\n}\n")
+        # what follows the closing brace of the measured function
+        after = {"brace_at_eof_no_newline": "}", "brace_then_line_comment": "} // c\n", "brace_then_block_comment": "} /* c */\n",
+                 "brace_then_blank": "} \n", "brace_then_function": "}\n\nint\tnext(void)\n{\n\treturn (1);\n}\n"}.get(ctx, "}\n")
+        b.add("\treturn (0);\n" + after)
         body += 1
         assert body == n, (body, n)
         return name, b.items, [("TOO_MANY_LINES", None, n > 25)], None
